@@ -20,7 +20,14 @@ LEVEL = "fault_enumeration"
 def items_for(sdoc):
     """unknown items (sgml terms) for insertion into aggregate sdoc"""
     known = sdoc[1][0] if sdoc[1] else ("KNOWN", "1")
+    declared = declared_tags(sdoc[0])
+    elsewhere = next(n for n in ("NAME", "MEMO", "CODE", "SEVERITY", "TRNUID", "ACCTID", "CURDEF", "DTSERVER", "FITID", "LANGUAGE") if n not in declared)
+    elsewhere2 = next(n for n in ("STATUS", "BANKACCTFROM", "CURRENCY", "SECID", "INVTRAN", "LEDGERBAL", "FI") if n not in declared)
     return [
+        ("element-known-elsewhere", (elsewhere, "1")),
+        ("aggregate-known-elsewhere", (elsewhere2, [("CODE", "0"), ("SEVERITY", "INFO")])),
+        ("digit-initial-aggregate-with-known-content", ("1ST.X", [known])),
+        ("digit-initial-element", ("2FA", "1")),
         ("data-element", ("FOO", "1")),
         ("empty-element", ("FOO", [])),
         ("aggregate", ("FOO", [("BAR", "1"), ("BAZ", [("QUX", "x y")])])),
@@ -173,7 +180,7 @@ def work(chunk):
             if pairs and bk == "MIN":
                 items = items_for(sdoc)
                 npos = len(sdoc[1]) + 1
-                combos = [(0, 4), (4, 5), (4, 4), (0, 2), (5, 0)]  # (item index, item index)
+                combos = [(4, 8), (8, 9), (8, 8), (4, 6), (9, 4), (0, 2)]  # (item index, item index)
                 for p1 in range(npos):
                     for p2 in range(p1, npos):
                         for (i1, i2) in combos:
@@ -214,8 +221,8 @@ def run(ctx):
         "distinct_nontrivial": tally.counts["insertions"],
         "rule": "every class x {MIN, MAXS} document x every child position of the root aggregate"
         + (" and of every aggregate one level below it" if ctx.thorough else " (one level deeper for the classes around MAIL/MFINFO/STOCKINFO)") +
-        " x 6 unknown items (data element, empty element, aggregate with nested content, aggregate wrapping a known child, vendor-prefixed element, vendor-prefixed "
-        "aggregate) x 3 routes; + on MIN every pair of positions x 5 item pairs (incl. two vendor tags, same and different positions); distinct_nontrivial = distinct "
+        " x 10 unknown items (element / aggregate whose name is a tag of OTHER classes, digit-initial aggregate wrapping a known child, digit-initial element, data element, empty "
+        "element, aggregate with nested content, aggregate wrapping a known child, vendor-prefixed element, vendor-prefixed aggregate) x 3 routes; + on MIN every pair of positions x 6 item pairs (incl. two vendor tags, same and different positions); distinct_nontrivial = distinct "
         "(document, insertion) pairs, evaluations = those x routes",
         "classes": tally.counts["classes"],
         "exhaustive": True,
